@@ -40,6 +40,15 @@ theorem prov_static_once :
     recordDefaultTrue = true := by
   refine ⟨?_, ?_, ?_, ?_, ?_, ?_, ?_, ?_⟩ <;> decide +kernel
 
+/-- **`record_provenance=None` behaves as `True`**: the flag the sites see is `resolveFlag`, which maps
+`None` (passed explicitly or left out) to on; together with `recordDefaultTrue` (the
+`if record_provenance is None: record_provenance = True` line is present in `__init__`, part of
+`prov_static_once`) a run with `None` appends exactly the record a run with `True` appends. -/
+theorem prov_none_is_on {R : Type} (mk : Site → R) (prov : List R) (path : List Site) :
+    resolveFlag none = true ∧ resolveFlag (some true) = true ∧ resolveFlag (some false) = false ∧
+    execPath (resolveFlag none) mk prov path = execPath (resolveFlag (some true)) mk prov path :=
+  ⟨rfl, rfl, rfl, rfl⟩
+
 /-- **Earlier records are kept**: for any entry point, any set/order/multiplicity of executed
 sites and either value of the flag, the old table is a prefix of the new one (identical rows, same
 order).  Holds without any hypothesis on the sites. -/
